@@ -81,7 +81,8 @@ Definition inst_do (i : instance) (ev : string) (req : request) : inst_res :=
       | DoRoute => IRoute i
       | DoPanic => IPanic
       | DoRes cur rstate rdata err p =>
-          IRes {| i_mach := i_mach i; i_cur := cur; i_dstate := rstate; i_payload := p |} rstate rdata err
+          (* the dump records the machine's state (also after a refused event) *)
+          IRes {| i_mach := i_mach i; i_cur := cur; i_dstate := cur; i_payload := p |} rstate rdata err
       end
   end.
 
@@ -151,4 +152,25 @@ Definition fsm_case (d : dump) (ev : string) (req : request) : case_obs :=
   | LoadErr => CLoadErr
   | LoadPanic => CPanic
   | LoadOk i => obs_of_do (inst_do i ev req)
+  end.
+
+(* ---- continuing in memory versus continuing after dump + restore (C19) ---- *)
+Fixpoint mem_walk (i : instance) (steps : list (string * request)) : list (case_obs * case_obs) :=
+  match steps with
+  | [] => []
+  | (ev, req) :: r =>
+      let restored := fsm_case (dump_of i) ev req in
+      let live := inst_do i ev req in
+      (obs_of_do live, restored) ::
+        match live with
+        | IRes i' _ _ _ => mem_walk i' r
+        | IRoute i' => mem_walk i' r
+        | IPanic => []
+        end
+  end.
+
+Definition mem_case (d : dump) (steps : list (string * request)) : option (list (case_obs * case_obs)) :=
+  match from_dump d with
+  | LoadOk i => Some (mem_walk i steps)
+  | _ => None
   end.
